@@ -2,10 +2,12 @@
   C17 — The root finder reports what it actually reached.
   Property theorems only (model: LibfiveModel/Solver.lean, helper lemmas: LibfiveProofs/Solver.lean).
 
-  All theorems quantify over every scalar interpretation `S`, every evaluator `P` (arbitrary
-  `value` / `grad` functions), every initial slot state `ev0`, initial assignment `init`, mask,
-  budget `gas` and every amount of model fuel.  `FVal` (nan | ninf | fin n | pinf) is used for the
-  concrete witnesses, so the negative results speak about NaN and ±∞.
+  The model mirrors solver.cpp AFTER /repo commits 4e85339 (the line search stops on a non-finite
+  or zero step) and 3fa47ee (`gas && --gas`).  All theorems quantify over every scalar
+  interpretation `S`, every evaluator `P` (arbitrary `value` / `grad` functions), every initial slot
+  state `ev0`, initial assignment `init`, mask, budget `gas` and every amount of model fuel.
+  `FVal` (nan | ninf | fin n | pinf) is used for the concrete examples.  The last section keeps the
+  refuted claims about the PRE-FIX line search (`lineSearchOld`) as checked theorems.
 -/
 import LibfiveProofs.Solver
 
@@ -19,44 +21,72 @@ variable {V : Type}
 def unmasked (init : Assign V) (mask : List Var) : Assign V :=
   init.filter fun p => !mask.contains p.1
 
-/-- **residual_is_value.** On every exit path (converged / small residual / out of gas / all
-    gradients small) the returned residual is the evaluator's value with its variable slots holding
-    the initial values overwritten by the returned assignment — i.e. an independent evaluation at
-    the returned assignment (masked variables at their initial values) reproduces it — and the
-    evaluator is left in exactly that state. -/
-theorem residual_is_value (S : Scalar V) (P : Problem V) (innerFuel outerFuel : Nat)
-    (ev0 init : Assign V) (mask : List Var) (gas : Nat) (st : St V)
-    (h : findRoot S P innerFuel outerFuel ev0 init mask gas = .returned st) :
-    st.r = P.value (load (load ev0 init) st.vars) ∧
-    st.ev = load (load ev0 init) st.vars ∧
-    keys st.vars = keys (unmasked init mask) := by
-  let E := load ev0 init
-  let K := keys (unmasked init mask)
-  let I : St V → Prop := fun s => s.ev = load E s.vars ∧ s.r = P.value s.ev ∧ keys s.vars = K
-  have key := outer_ind S P innerFuel I I (fun _ h => h) (fun _ h _ => h) (fun _ h _ => h)
-    (by
-      intro s a hI _ _ hls
-      obtain ⟨h1, h2, h3, _, _, _, _⟩ := lineSearch_accepted S P _ _ _ _ _ _ _ _ a hls
-      obtain ⟨i1, _, i3⟩ := hI
-      have hk : keys a.vars = keys s.vars := by rw [h1, keys_stepVars]
-      refine ⟨?_, h3, by rw [hk]; exact i3⟩
-      show a.ev = load E a.vars
-      rw [h2, i1, load_load]
-      intro x hx
-      rw [hk]; exact hx)
-    outerFuel (initSt S P ev0 init mask gas)
-    (by
-      refine ⟨?_, rfl, rfl⟩
-      show load ev0 init = load (load ev0 init) (init.filter fun p => !mask.contains p.1)
-      exact (load_filter_self ev0 init (fun k => !mask.contains k)).symm)
-  obtain ⟨i1, i2, i3⟩ := key.1 st h
-  exact ⟨by rw [i2, i1], i1, i3⟩
-
 theorem mem_keys_filter (a : Assign V) (q : Var → Bool) (x : Var)
     (h : x ∈ keys (a.filter fun p => q p.1)) : q x = true := by
   simp only [keys, List.mem_map, List.mem_filter] at h
   obtain ⟨p, ⟨_, hq⟩, rfl⟩ := h
   exact hq
+
+/-- **residual_is_value.** On every exit path (converged / small residual / out of gas / all
+    gradients small / line search gave up) the returned residual is the evaluator's value with its
+    variable slots holding the initial values overwritten by the returned assignment — i.e. an
+    independent evaluation at the returned assignment (masked variables at their initial values)
+    reproduces it.  The returned variables are exactly the unmasked ones.  Unless the last line
+    search gave up, the evaluator is left in exactly that state (after a give-up its slots hold the
+    last rejected trial point; slots of variables that are not iterated on are never written). -/
+theorem residual_is_value (S : Scalar V) (P : Problem V) (innerFuel outerFuel : Nat)
+    (ev0 init : Assign V) (mask : List Var) (gas : Nat) (st : St V)
+    (h : findRoot S P innerFuel outerFuel ev0 init mask gas = .returned st) :
+    st.r = P.value (load (load ev0 init) st.vars) ∧
+    keys st.vars = keys (unmasked init mask) ∧
+    (st.gaveUp = false → st.ev = load (load ev0 init) st.vars) ∧
+    (∀ x, x ∉ keys (unmasked init mask) → st.ev.lookup x = (load ev0 init).lookup x) := by
+  let E := load ev0 init
+  let K := keys (unmasked init mask)
+  let I : St V → Prop := fun s =>
+    s.r = P.value (load E s.vars) ∧ keys s.vars = K ∧ (s.gaveUp = false → s.ev = load E s.vars) ∧
+    (s.gaveUp = true → s.converged = true) ∧ (∀ x, x ∉ K → s.ev.lookup x = E.lookup x)
+  have key := outer_ind S P innerFuel I I (fun _ h => h) (fun _ h => h) (fun _ h => h)
+    (by
+      intro s s' n cur hI _ _ hls
+      obtain ⟨i1, i2, _, _, i5⟩ := hI
+      refine ⟨i1, i2, fun hf => (by cases hf), fun _ => rfl, ?_⟩
+      intro x hx
+      show cur.lookup x = E.lookup x
+      rcases lineSearch_gaveUp S P _ _ _ _ _ _ _ _ _ _ _ _ hls with hc | ⟨s'', hc⟩
+      · rw [hc]; exact i5 x hx
+      · rw [hc, lookup_load, lookup_eq_none_of_not_mem_keys _ x (by rw [keys_stepVars, i2]; exact hx)]
+        rw [← i5 x hx]
+        cases s.ev.lookup x <;> rfl)
+    (by
+      intro s a hI hconv _ hls
+      obtain ⟨h1, h2, h3, _⟩ := lineSearch_accepted S P _ _ _ _ _ _ _ _ _ a hls
+      obtain ⟨_, i2, i3, i4, i5⟩ := hI
+      have hg : s.gaveUp = false := by
+        cases hgu : s.gaveUp with
+        | false => rfl
+        | true => rw [i4 hgu] at hconv; cases hconv
+      have hk : keys a.vars = keys s.vars := by rw [h1, keys_stepVars]
+      have hev : a.ev = load E a.vars := by
+        rw [h2, i3 hg, load_load]
+        intro x hx
+        rw [hk]; exact hx
+      refine ⟨by rw [h3, hev], by rw [hk]; exact i2, fun _ => hev, fun hf => (by cases hf), ?_⟩
+      intro x hx
+      show a.ev.lookup x = E.lookup x
+      rw [hev, lookup_load, lookup_eq_none_of_not_mem_keys a.vars x (by rw [hk, i2]; exact hx)]
+      cases E.lookup x <;> rfl)
+    outerFuel (initSt S P ev0 init mask gas)
+    (by
+      have hE : load E (init.filter fun p => !mask.contains p.1) = E :=
+        load_filter_self ev0 init (fun k => !mask.contains k)
+      refine ⟨?_, rfl, fun _ => ?_, fun hf => (by cases hf), fun _ _ => rfl⟩
+      · show P.value (load ev0 init) = P.value (load E (init.filter fun p => !mask.contains p.1))
+        rw [hE]
+      · show load ev0 init = load E (init.filter fun p => !mask.contains p.1)
+        rw [hE])
+  obtain ⟨i1, i2, i3, _, i5⟩ := key.1 st h
+  exact ⟨i1, i2, i3, i5⟩
 
 /-- **mask_untouched.** A masked variable is not in the returned solution, and the evaluator's
     slot for it still holds its initial value (it was loaded once and never written again). -/
@@ -65,150 +95,212 @@ theorem mask_untouched (S : Scalar V) (P : Problem V) (innerFuel outerFuel : Nat
     (h : findRoot S P innerFuel outerFuel ev0 init mask gas = .returned st)
     (x : Var) (hx : x ∈ mask) :
     x ∉ keys st.vars ∧ st.ev.lookup x = (load ev0 init).lookup x := by
-  obtain ⟨_, h2, h3⟩ := residual_is_value S P innerFuel outerFuel ev0 init mask gas st h
-  have hnot : x ∉ keys st.vars := by
-    rw [h3]
+  obtain ⟨_, h2, _, h4⟩ := residual_is_value S P innerFuel outerFuel ev0 init mask gas st h
+  have hnot : x ∉ keys (unmasked init mask) := by
     intro hm
     have := mem_keys_filter init (fun k => !mask.contains k) x hm
     simp at this
     exact this hx
-  refine ⟨hnot, ?_⟩
-  rw [h2, lookup_load, lookup_eq_none_of_not_mem_keys st.vars x hnot]
-  cases (load ev0 init).lookup x <;> rfl
+  exact ⟨by rw [h2]; exact hnot, h4 x hnot⟩
 
-/-- **outer_bounded.** Whatever happens inside, the outer loop performs at most `decGas gas`
-    iterations: `gas - 1` for `gas ≥ 1` — and `2^32 - 1` for `gas = 0`, because `--gas` wraps
-    (see `gas_zero_iterates`). Holds for returned and for hung outcomes. -/
+/-- **outer_bounded.** For EVERY budget, `gas = 0` included, at most `gas - 1` (natural
+    subtraction: 0 for `gas ≤ 1`) loop bodies are executed — on returned and on hung outcomes. -/
 theorem outer_bounded (S : Scalar V) (P : Problem V) (innerFuel outerFuel : Nat)
     (ev0 init : Assign V) (mask : List Var) (gas : Nat) :
-    (∀ st, findRoot S P innerFuel outerFuel ev0 init mask gas = .returned st → st.iters ≤ decGas gas) ∧
-    (∀ st s n, findRoot S P innerFuel outerFuel ev0 init mask gas = .hung st s n → st.iters ≤ decGas gas) := by
-  let I : St V → Prop := fun s =>
-    (s.iters = 0 ∧ s.gas = gas) ∨ (1 ≤ s.gas ∧ s.iters + s.gas = decGas gas + 1)
-  let Q : St V → Prop := fun s => s.iters ≤ decGas gas
+    (∀ st, findRoot S P innerFuel outerFuel ev0 init mask gas = .returned st → st.iters ≤ gas - 1) ∧
+    (∀ st s n, findRoot S P innerFuel outerFuel ev0 init mask gas = .hung st s n → st.iters ≤ gas - 1) := by
+  let I : St V → Prop := fun s => s.iters + s.gas = gas ∧ (s.iters = 0 ∨ 1 ≤ s.gas)
+  let Q : St V → Prop := fun s => s.iters ≤ gas - 1
   have hQ : ∀ s, I s → Q s := by
-    intro s hI
-    show s.iters ≤ decGas gas
-    rcases hI with ⟨h0, _⟩ | ⟨h1, h2⟩ <;> omega
-  exact outer_ind S P innerFuel I Q hQ (fun s hI _ => hQ s hI) (fun s hI _ => hQ s hI)
+    intro s ⟨h1, h2⟩
+    show s.iters ≤ gas - 1
+    omega
+  have key := outer_ind S P innerFuel I Q hQ (fun s hI => hQ s hI) (fun s hI => hQ s hI)
     (by
-      intro s a hI _ hg _
-      show (s.iters + 1 = 0 ∧ decGas s.gas = gas) ∨
-        (1 ≤ decGas s.gas ∧ s.iters + 1 + decGas s.gas = decGas gas + 1)
-      right
-      rcases hI with ⟨h0, h1⟩ | ⟨h1, h2⟩
-      · rw [h1] at hg ⊢; omega
-      · have : decGas s.gas = s.gas - 1 := by unfold decGas; split <;> omega
-        rw [this] at hg ⊢; omega)
-    outerFuel (initSt S P ev0 init mask gas) (Or.inl ⟨rfl, rfl⟩)
+      intro s _ _ _ ⟨h1, h2⟩ _ hg _
+      show s.iters + 1 + (s.gas - 1) = gas ∧ (s.iters + 1 = 0 ∨ 1 ≤ s.gas - 1)
+      omega)
+    (by
+      intro s a ⟨h1, h2⟩ _ hg _
+      show s.iters + 1 + (s.gas - 1) = gas ∧ (s.iters + 1 = 0 ∨ 1 ≤ s.gas - 1)
+      omega)
+    outerFuel (initSt S P ev0 init mask gas) ⟨by show 0 + gas = gas; omega, Or.inl rfl⟩
+  exact ⟨key.1, fun st s n h => (key.2 st s n h).1⟩
 
-/-- For a positive budget: at most `gas - 1` iterations. -/
-theorem outer_bounded_pos (S : Scalar V) (P : Problem V) (innerFuel outerFuel : Nat)
-    (ev0 init : Assign V) (mask : List Var) (gas : Nat) (hg : 1 ≤ gas) (st : St V)
-    (h : findRoot S P innerFuel outerFuel ev0 init mask gas = .returned st) : st.iters + 1 ≤ gas := by
-  have := (outer_bounded S P innerFuel outerFuel ev0 init mask gas).1 st h
-  unfold decGas at this
-  split at this <;> omega
+/-- A zero budget performs no iteration and returns the initial assignment. -/
+theorem gas_zero_no_iteration (S : Scalar V) (P : Problem V) (innerFuel outerFuel : Nat)
+    (ev0 init : Assign V) (mask : List Var) (st : St V)
+    (h : findRoot S P innerFuel outerFuel ev0 init mask 0 = .returned st) : st.iters = 0 := by
+  have := (outer_bounded S P innerFuel outerFuel ev0 init mask 0).1 st h
+  omega
 
-/-- **absent_untouched_partial.** A variable whose gradient component is never non-zero (it does
-    not occur in the expression — `grad` has no entry for it — or only behind const-vars — the
-    entry is zero) keeps its initial value, PROVIDED every accepted step was finite: the update is
-    `v - step*0`, which is `v` only for finite `step` (law `subMul_zero`).
-    Full statement (false on this tree, see `absent_touched_nonfinite`): the same without the
-    finiteness hypothesis. -/
-theorem absent_untouched_partial (S : Scalar V) (bound : V → Nat) (L : Laws S bound)
+/-- **accepted_steps_finite.** Every step the fixed line search accepts is finite and non-zero. -/
+theorem accepted_steps_finite (S : Scalar V) (P : Problem V) (innerFuel outerFuel : Nat)
+    (ev0 init : Assign V) (mask : List Var) (gas : Nat) (st : St V)
+    (h : findRoot S P innerFuel outerFuel ev0 init mask gas = .returned st) :
+    ∀ e ∈ st.log, S.isFinite e.step = true ∧ S.isZero e.step = false := by
+  let I : St V → Prop := fun s => ∀ e ∈ s.log, S.isFinite e.step = true ∧ S.isZero e.step = false
+  have key := outer_ind S P innerFuel I I (fun _ h => h) (fun _ h => h) (fun _ h => h)
+    (fun _ _ _ _ h _ _ _ => h)
+    (by
+      intro s a hI _ _ hls
+      obtain ⟨_, _, _, _, _, _, _, h8, h9⟩ := lineSearch_accepted S P _ _ _ _ _ _ _ _ _ a hls
+      intro e he
+      rcases List.mem_cons.mp he with rfl | he
+      · exact ⟨h8, h9⟩
+      · exact hI e he)
+    outerFuel (initSt S P ev0 init mask gas) (fun _ he => by cases he)
+  exact key.1 st h
+
+/-- **absent_untouched.** A variable whose gradient component is never non-zero (it does not occur
+    in the expression — `grad` has no entry for it — or only behind const-vars — the entry is
+    zero) keeps its initial value, unconditionally: the update is `v - step*0` and the guard makes
+    every accepted `step` finite (law `subMul_zero`; on IEEE singles `-0 - (-0)` is `+0`, i.e. the
+    value is kept up to the sign of a zero). -/
+theorem absent_untouched (S : Scalar V) (bound : V → Nat) (L : Laws S bound)
     (P : Problem V) (innerFuel outerFuel : Nat)
     (ev0 init : Assign V) (mask : List Var) (gas : Nat) (st : St V)
     (h : findRoot S P innerFuel outerFuel ev0 init mask gas = .returned st)
     (x : Var)
-    (hgrad : ∀ ev, (P.grad ev).lookup x = none ∨ (P.grad ev).lookup x = some S.zero)
-    (hfin : ∀ e ∈ st.log, S.isFinite e.step = true) :
+    (hgrad : ∀ ev, (P.grad ev).lookup x = none ∨ (P.grad ev).lookup x = some S.zero) :
     st.vars.lookup x = (unmasked init mask).lookup x := by
   let v0 := (unmasked init mask).lookup x
-  let I : St V → Prop := fun s =>
-    dsAt S s.ds x = S.zero ∧ ((∀ e ∈ s.log, S.isFinite e.step = true) → s.vars.lookup x = v0)
-  have key := outer_ind S P innerFuel I I (fun _ h => h) (fun _ h _ => ⟨h.1, h.2⟩)
-    (fun s h _ => ⟨dsAt_load S s.ds _ x h.1 (hgrad s.ev), h.2⟩)
+  let I : St V → Prop := fun s => dsAt S s.ds x = S.zero ∧ s.vars.lookup x = v0
+  have key := outer_ind S P innerFuel I I (fun _ h => h) (fun _ h => ⟨h.1, h.2⟩)
+    (fun s h => ⟨dsAt_load S s.ds _ x h.1 (hgrad s.ev), h.2⟩)
+    (fun s _ _ _ h _ _ _ => ⟨dsAt_load S s.ds _ x h.1 (hgrad s.ev), h.2⟩)
     (by
       intro s a hI _ _ hls
-      obtain ⟨h1, _, _, _, _, _, _⟩ := lineSearch_accepted S P _ _ _ _ _ _ _ _ a hls
+      obtain ⟨h1, _, _, _, _, _, _, h8, _⟩ := lineSearch_accepted S P _ _ _ _ _ _ _ _ _ a hls
       have hds := dsAt_load S s.ds _ x hI.1 (hgrad s.ev)
       refine ⟨hds, ?_⟩
-      intro hall
       show a.vars.lookup x = v0
-      have hstep : S.isFinite a.step = true := hall _ (List.mem_cons_self ..)
-      have hrest : ∀ e ∈ s.log, S.isFinite e.step = true := fun e he => hall e (List.mem_cons_of_mem _ he)
-      rw [h1, lookup_stepVars, hds, ← hI.2 hrest]
+      rw [h1, lookup_stepVars, hds, ← hI.2]
       cases s.vars.lookup x with
       | none => rfl
-      | some v => simp [L.subMul_zero v a.step hstep])
+      | some v => simp [L.subMul_zero v a.step h8])
     outerFuel (initSt S P ev0 init mask gas)
-    ⟨dsAt_init S _ x, fun _ => rfl⟩
-  exact (key.1 st h).2 hfin
+    ⟨dsAt_init S _ x, rfl⟩
+  exact (key.1 st h).2
 
-/-- **inner_terminates_partial.** If the first step `r / slope` is finite and every gradient
-    component in use is finite, the line search started from a consistent state (`r` is the value
-    at the evaluator's slots, which hold `vars`) ends after at most `bound (r/slope)` halvings
-    (for `FVal`: the bit length of the step; for IEEE single: ≤ 278): the step underflows to zero,
-    the trial point is then the current point, `diff = 0` and `fabs(diff) < EPSILON` fires.
-    Full statement (false on this tree, see `inner_not_total`): the same for every step. -/
-theorem inner_terminates_partial (S : Scalar V) (bound : V → Nat) (L : Laws S bound) (P : Problem V)
-    (r slope : V) (ds vars ev : Assign V)
-    (hstep : S.isFinite (S.div r slope) = true)
-    (hd : ∀ p ∈ vars, S.isFinite (dsAt S ds p.1) = true)
-    (hrv : r = P.value ev) (hev : load ev vars = ev) :
-    ∃ a, lineSearch S P r slope ds vars ev (bound (S.div r slope) + 1) 0 (S.div r slope) = .accepted a ∧
-      a.halvings ≤ bound (S.div r slope) := by
-  have hr := L.div_finite r slope hstep
-  obtain ⟨a, h1, h2⟩ := lineSearch_terminates_aux S bound L P r slope ds vars ev hr hrv hev hd
-    (bound (S.div r slope)) 0 (S.div r slope) (L.halves_to_zero _ hstep)
-  exact ⟨a, h1, by omega⟩
+/-- **inner_terminates.** For EVERY first step, evaluator, gradient and state, the line search is
+    over (accepted or gave up) within `bound step + 1` trials if the step is finite (for `FVal`:
+    its bit length; for IEEE single ≤ 278) and within one trial otherwise. Uses only the laws
+    `half_finite` and `halves_to_zero`. -/
+theorem inner_terminates (S : Scalar V) (bound : V → Nat) (L : Laws S bound) (P : Problem V)
+    (r slope : V) (ds vars ev cur : Assign V) (step : V) (fuel : Nat)
+    (hfuel : (if S.isFinite step then bound step else 0) + 1 ≤ fuel) :
+    (lineSearch S P r slope ds vars ev fuel 0 step cur).isOutOfFuel = false :=
+  lineSearch_done S bound L P r slope ds vars ev fuel 0 step cur hfuel
 
-/-- The consistency hypotheses of `inner_terminates_partial` hold at every loop head of
-    `findRoot` (this is the invariant behind `residual_is_value`). -/
-theorem loop_state_consistent (S : Scalar V) (P : Problem V) (innerFuel outerFuel : Nat)
-    (ev0 init : Assign V) (mask : List Var) (gas : Nat) :
-    (∀ st, findRoot S P innerFuel outerFuel ev0 init mask gas = .returned st →
-      st.r = P.value st.ev ∧ load st.ev st.vars = st.ev) ∧
-    (∀ st s n, findRoot S P innerFuel outerFuel ev0 init mask gas = .hung st s n →
-      st.r = P.value st.ev ∧ load st.ev st.vars = st.ev) := by
-  let E := load ev0 init
-  let I : St V → Prop := fun s => s.ev = load E s.vars ∧ s.r = P.value s.ev
-  have hQ : ∀ s : St V, I s → s.r = P.value s.ev ∧ load s.ev s.vars = s.ev := by
-    intro s ⟨h1, h2⟩
-    refine ⟨h2, ?_⟩
-    rw [h1, load_load]
-    exact fun _ hx => hx
-  exact outer_ind S P innerFuel I (fun s => s.r = P.value s.ev ∧ load s.ev s.vars = s.ev)
-    hQ (fun s hI _ => hQ _ hI) (fun s hI _ => hQ _ hI)
-    (by
-      intro s a hI _ _ hls
-      obtain ⟨h1, h2, h3, _, _, _, _⟩ := lineSearch_accepted S P _ _ _ _ _ _ _ _ a hls
-      have hk : keys a.vars = keys s.vars := by rw [h1, keys_stepVars]
-      refine ⟨?_, h3⟩
-      show a.ev = load E a.vars
-      rw [h2, hI.1, load_load]
-      intro x hx
-      rw [hk]; exact hx)
-    outerFuel (initSt S P ev0 init mask gas)
-    ⟨(load_filter_self ev0 init (fun k => !mask.contains k)).symm, rfl⟩
+/-- **findRoot_never_hangs.** A `.hung` outcome is an artefact of too little model fuel: it can
+    only happen if the inner fuel is at most the halving bound of that iteration's first step. -/
+theorem findRoot_never_hangs (S : Scalar V) (bound : V → Nat) (L : Laws S bound) (P : Problem V)
+    (innerFuel outerFuel : Nat) (ev0 init : Assign V) (mask : List Var) (gas : Nat)
+    (st : St V) (s : V) (n : Nat)
+    (h : findRoot S P innerFuel outerFuel ev0 init mask gas = .hung st s n) :
+    innerFuel ≤ (if S.isFinite (S.div st.r (slopeOf S st.ds)) then bound (S.div st.r (slopeOf S st.ds)) else 0) := by
+  have key := outer_ind S P innerFuel (fun _ => True) (fun _ => True) (fun _ _ => trivial)
+    (fun _ _ => trivial) (fun _ _ => trivial) (fun _ _ _ _ _ _ _ _ => trivial)
+    (fun _ _ _ _ _ _ => trivial) outerFuel (initSt S P ev0 init mask gas) trivial
+  have hls := (key.2 st s n h).2
+  by_cases hle : innerFuel ≤ (if S.isFinite (S.div st.r (slopeOf S st.ds)) then bound (S.div st.r (slopeOf S st.ds)) else 0)
+  · exact hle
+  · have := lineSearch_done S bound L P st.r (slopeOf S st.ds) st.ds st.vars st.ev innerFuel 0
+      (S.div st.r (slopeOf S st.ds)) st.ev (by omega)
+    rw [hls] at this
+    cases this
 
-/-- **inner_diverges.** A step that halving does not change (NaN, ±∞ — and 0) at which the exit
-    test fails is never left: the line search does not end for any amount of fuel. -/
-theorem inner_diverges (S : Scalar V) (P : Problem V) (r slope : V) (ds vars ev : Assign V) (step : V)
+/-- **findRoot_terminates.** With inner fuel above the scalar's halving bound (278 suffices for
+    IEEE single) and outer fuel `≥ max gas 1`, every call RETURNS — for every expression, initial
+    assignment (NaN, ±∞, -0 included), mask and budget; by `outer_bounded` after at most `gas - 1`
+    loop bodies, each (by `inner_terminates`) with at most `innerFuel` evaluations. -/
+theorem findRoot_terminates (S : Scalar V) (bound : V → Nat) (L : Laws S bound) (P : Problem V)
+    (innerFuel outerFuel : Nat) (ev0 init : Assign V) (mask : List Var) (gas : Nat)
+    (hin : ∀ s, bound s < innerFuel) (hout : gas ≤ outerFuel) (hout1 : 1 ≤ outerFuel) :
+    ∃ st, findRoot S P innerFuel outerFuel ev0 init mask gas = .returned st := by
+  cases hres : findRoot S P innerFuel outerFuel ev0 init mask gas with
+  | returned st => exact ⟨st, rfl⟩
+  | hung st s n =>
+    have h1 := findRoot_never_hangs S bound L P innerFuel outerFuel ev0 init mask gas st s n hres
+    have h2 := hin (S.div st.r (slopeOf S st.ds))
+    split at h1 <;> omega
+  | outerFuel st =>
+    exact absurd hres (outer_no_outerFuel S P innerFuel outerFuel (initSt S P ev0 init mask gas) hout hout1 st)
+
+/-! ### the former witnesses, on the fixed model (FVal) -/
+
+/-- the value of variable 0 in the evaluator's slots -/
+def v0 (ev : Assign FVal) : FVal := (ev.lookup 0).getD FVal.nan
+
+/-- `1 / v` : the probe target of DESIGN §7 -/
+def recipP : Problem FVal where
+  value := fun ev => FVal.div (FVal.ofInt 1) (v0 ev)
+  grad := fun ev => [(0, FVal.neg (FVal.div (FVal.ofInt 1) (FVal.mul (v0 ev) (v0 ev))))]
+
+/-- `sqrt(v) + 1` at `v = 0` abstracted: value 1 at 0, NaN at NaN, gradient +∞ at 0. -/
+def infGradP : Problem FVal where
+  value := fun ev => match v0 ev with
+    | FVal.fin 0 => FVal.ofInt 1
+    | _ => FVal.nan
+  grad := fun ev => match v0 ev with
+    | FVal.fin 0 => [(0, FVal.pinf)]
+    | _ => [(0, FVal.nan)]
+
+/-- `∞ + 2^-12 · v` with a second variable (1) that does not occur -/
+def infResP : Problem FVal where
+  value := fun ev => FVal.add FVal.pinf (FVal.mul (FVal.fin 268435456) (v0 ev))
+  grad := fun _ => [(0, FVal.fin 268435456)]
+
+/-- `-1 - v²`: no root, negative residual -/
+def noRootP : Problem FVal where
+  value := fun ev => FVal.sub (FVal.ofInt (-1)) (FVal.mul (v0 ev) (v0 ev))
+  grad := fun ev => [(0, FVal.mul (FVal.ofInt (-2)) (v0 ev))]
+
+/-- `findRoot(1/v, v = 0, gas = 100)` now returns after one loop body: step = NaN, give-up,
+    residual +∞ and `v = 0` reported unchanged. -/
+theorem recip_pole_returns :
+    (findRoot FVal.scalar recipP 5 5 [(0, FVal.fin 0)] [(0, FVal.fin 0)] [] 100).st?.map
+        (fun st => (st.vars, st.r, st.iters, st.gaveUp)) = some ([(0, FVal.fin 0)], FVal.pinf, 1, true) := by
+  decide
+
+/-- zero step with infinite gradient: gives up, nothing changed -/
+theorem inf_gradient_returns :
+    (findRoot FVal.scalar infGradP 5 5 [(0, FVal.fin 0)] [(0, FVal.fin 0)] [] 100).st?.map
+        (fun st => (st.vars, st.r, st.iters, st.gaveUp)) = some ([(0, FVal.fin 0)], FVal.ofInt 1, 1, true) := by
+  decide
+
+/-- infinite residual, small finite gradient (formerly: step ∞ accepted, absent variable → NaN):
+    gives up, both variables keep their values -/
+theorem inf_residual_returns :
+    (findRoot FVal.scalar infResP 5 5 [(0, FVal.fin 0)] [(0, FVal.fin 0), (1, FVal.ofInt 1)] [] 10).st?.map
+        (fun st => (st.vars, st.r, st.log.length)) = some ([(0, FVal.fin 0), (1, FVal.ofInt 1)], FVal.pinf, 0) := by
+  decide
+
+/-- budget 0: no iteration -/
+theorem gas_zero_returns_initial :
+    (findRoot FVal.scalar noRootP 5 5 [(0, FVal.fin 0)] [(0, FVal.ofInt 1)] [] 0).st?.map
+        (fun st => (st.iters, st.vars)) = some (0, [(0, FVal.ofInt 1)]) := by
+  decide
+
+/-! ### pre-fix: the refuted claims about `lineSearchOld` (solver.cpp before 4e85339) -/
+
+/-- **old_inner_diverges.** In the PRE-FIX line search a step that halving does not change (NaN,
+    ±∞, 0) at which the exit test fails is never left. -/
+theorem old_inner_diverges (S : Scalar V) (P : Problem V) (r slope : V) (ds vars ev : Assign V) (step : V)
     (hfix : S.half step = step)
     (hno : exitTest S r slope step (P.value (load ev (stepVars S vars ds step))) = false) :
-    ∀ fuel, ∃ m, lineSearch S P r slope ds vars ev fuel 0 step = .outOfFuel step m :=
-  fun fuel => ⟨_, lineSearch_fixed_point S P r slope ds vars ev step hfix hno fuel 0⟩
+    ∀ fuel, ∃ m, lineSearchOld S P r slope ds vars ev fuel 0 step = .outOfFuel step m :=
+  fun fuel => ⟨_, lineSearchOld_fixed_point S P r slope ds vars ev step hfix hno fuel 0⟩
 
-/-- For `FVal`: a non-finite step whose trial residual is NaN can only be left through
-    `slope < EPSILON` — none of the other three exit conditions can fire. -/
-theorem inner_diverges_nonfinite (P : Problem FVal) (r slope : FVal) (ds vars ev : Assign FVal)
+/-- For `FVal`: a non-finite step whose trial residual is NaN could only be left through
+    `slope < EPSILON`. -/
+theorem old_inner_diverges_nonfinite (P : Problem FVal) (r slope : FVal) (ds vars ev : Assign FVal)
     (step : FVal) (hstep : FVal.isFinite step = false)
     (hnan : P.value (load ev (stepVars FVal.scalar vars ds step)) = FVal.nan)
     (hslope : FVal.lt slope FVal.eps = false) :
-    ∀ fuel, ∃ m, lineSearch FVal.scalar P r slope ds vars ev fuel 0 step = .outOfFuel step m := by
-  apply inner_diverges
+    ∀ fuel, ∃ m, lineSearchOld FVal.scalar P r slope ds vars ev fuel 0 step = .outOfFuel step m := by
+  apply old_inner_diverges
   · cases step <;> simp [FVal.isFinite] at hstep <;> rfl
   · rw [hnan]
     have h1 : FVal.sub r FVal.nan = FVal.nan := by cases r <;> rfl
@@ -220,149 +312,25 @@ theorem inner_diverges_nonfinite (P : Problem FVal) (r slope : FVal) (ds vars ev
     rw [h1, h2, h3, hslope]
     rfl
 
-/-! ### concrete witnesses (FVal) -/
-
-/-- the value of variable 0 in the evaluator's slots -/
-def v0 (ev : Assign FVal) : FVal := (ev.lookup 0).getD FVal.nan
-
-/-- `1 / v` : the probe target of DESIGN §7 -/
-def recipP : Problem FVal where
-  value := fun ev => FVal.div (FVal.ofInt 1) (v0 ev)
-  grad := fun ev => [(0, FVal.neg (FVal.div (FVal.ofInt 1) (FVal.mul (v0 ev) (v0 ev))))]
-
-/-- **findRoot_not_total** (the defect): `findRoot(1/v, v = 0, gas = 100)` never returns — for
-    every amount of fuel given to the line search the model is stuck in outer iteration 0 with
-    step = NaN (∞/∞), all four exit comparisons false. -/
-theorem findRoot_not_total : ∀ innerFuel outerFuel,
-    (findRoot FVal.scalar recipP innerFuel (outerFuel + 1) [(0, FVal.fin 0)] [(0, FVal.fin 0)] [] 100).hungAt
-      = some 0 := by
-  intro innerFuel outerFuel
-  obtain ⟨m, hm⟩ := inner_diverges_nonfinite recipP FVal.pinf FVal.pinf [(0, FVal.ninf)] [(0, FVal.fin 0)]
-    [(0, FVal.fin 0)] FVal.nan rfl (by decide) (by decide) innerFuel
-  exact outer_hung FVal.scalar recipP innerFuel outerFuel
-    (initSt FVal.scalar recipP [(0, FVal.fin 0)] [(0, FVal.fin 0)] [] 100) FVal.nan m
-    rfl (by decide) (by decide) (by decide) hm
-
-/-- **inner_not_total.** The unrestricted termination claim is false: not every line search ends. -/
-theorem inner_not_total :
+/-- **old_inner_not_total.** The pre-fix line search did not always end (`1/v` at `v = 0`). -/
+theorem old_inner_not_total :
     ¬ ∀ (P : Problem FVal) (r slope : FVal) (ds vars ev : Assign FVal) (step : FVal),
-        ∃ fuel a, lineSearch FVal.scalar P r slope ds vars ev fuel 0 step = .accepted a := by
+        ∃ fuel a, lineSearchOld FVal.scalar P r slope ds vars ev fuel 0 step = .accepted a := by
   intro hall
   obtain ⟨fuel, a, h⟩ := hall recipP FVal.pinf FVal.pinf [(0, FVal.ninf)] [(0, FVal.fin 0)]
     [(0, FVal.fin 0)] FVal.nan
-  obtain ⟨m, hm⟩ := inner_diverges_nonfinite recipP FVal.pinf FVal.pinf [(0, FVal.ninf)] [(0, FVal.fin 0)]
+  obtain ⟨m, hm⟩ := old_inner_diverges_nonfinite recipP FVal.pinf FVal.pinf [(0, FVal.ninf)] [(0, FVal.fin 0)]
     [(0, FVal.fin 0)] FVal.nan rfl (by decide) (by decide) fuel
   rw [hm] at h
   cases h
 
-/-- `sqrt(v) + 1` at `v = 0` abstracted: value 1 at 0, NaN at NaN, gradient +∞ at 0.
-    Finite residual, infinite gradient: slope = ∞, step = 1/∞ = 0, trial point `0 - 0·∞ = NaN`. -/
-def infGradP : Problem FVal where
-  value := fun ev => match v0 ev with
-    | FVal.fin 0 => FVal.ofInt 1
-    | _ => FVal.nan
-  grad := fun ev => match v0 ev with
-    | FVal.fin 0 => [(0, FVal.pinf)]
-    | _ => [(0, FVal.nan)]
-
-/-- **zero_step_hang**: the same non-termination with a *zero* step: the step is finite, but the
-    gradient is not (hypothesis `hd` of `inner_terminates_partial` fails), `0·∞ = NaN`. -/
-theorem zero_step_hang : ∀ fuel, ∃ m,
-    lineSearch FVal.scalar infGradP (FVal.ofInt 1) FVal.pinf [(0, FVal.pinf)] [(0, FVal.fin 0)]
+/-- **old_zero_step_hang**: pre-fix, finite zero step with infinite gradient (`0·∞ = NaN`). -/
+theorem old_zero_step_hang : ∀ fuel, ∃ m,
+    lineSearchOld FVal.scalar infGradP (FVal.ofInt 1) FVal.pinf [(0, FVal.pinf)] [(0, FVal.fin 0)]
       [(0, FVal.fin 0)] fuel 0 (FVal.div (FVal.ofInt 1) FVal.pinf) = .outOfFuel (FVal.fin 0) m := by
   have : FVal.div (FVal.ofInt 1) FVal.pinf = FVal.fin 0 := by decide
   rw [this]
-  exact inner_diverges FVal.scalar infGradP _ _ _ _ _ (FVal.fin 0) (by decide) (by decide)
-
-/-- `∞ + 2^-12 · v` with a second variable (1) that does not occur: infinite residual, small
-    finite gradient. -/
-def infResP : Problem FVal where
-  value := fun ev => FVal.add FVal.pinf (FVal.mul (FVal.fin 268435456) (v0 ev))
-  grad := fun _ => [(0, FVal.fin 268435456)]
-
-/-- **absent_touched_nonfinite** (the finiteness hypothesis of `absent_untouched_partial` is
-    needed): residual ∞, gradient 2^-12 ⇒ slope 2^-24 < EPSILON, step = ∞ is accepted at once
-    (`slope < EPSILON`), the call RETURNS, and the absent variable 1 has become NaN (`w - ∞·0`). -/
-theorem absent_touched_nonfinite :
-    (findRoot FVal.scalar infResP 5 5 [(0, FVal.fin 0)] [(0, FVal.fin 0), (1, FVal.ofInt 1)] [] 10).st?.map
-        (fun st => (st.vars, st.r, st.iters, st.log.map (·.step)))
-      = some ([(0, FVal.ninf), (1, FVal.nan)], FVal.nan, 1, [FVal.pinf]) := by
-  decide
-
-/-- `-1 - v²`: no root, negative residual -/
-def noRootP : Problem FVal where
-  value := fun ev => FVal.sub (FVal.ofInt (-1)) (FVal.mul (v0 ev) (v0 ev))
-  grad := fun ev => [(0, FVal.mul (FVal.ofInt (-2)) (v0 ev))]
-
-/-- **gas_zero_iterates** (second defect): with budget `gas = 0` the loop test `--gas` wraps to
-    2^32 - 1 and iterations are performed: from `v = 1` one step to `v = 0` is taken (where the
-    gradient vanishes and the loop breaks). `outer_bounded` only gives `2^32 - 1` here. -/
-theorem gas_zero_iterates :
-    (findRoot FVal.scalar noRootP 5 5 [(0, FVal.fin 0)] [(0, FVal.ofInt 1)] [] 0).st?.map
-        (fun st => (st.iters, st.vars)) = some (1, [(0, FVal.fin 0)]) := by
-  decide
-
-/-! ### the proposed repair (proposed_fixes/C17-linesearch-nonfinite-step.patch) -/
-
-/-- The line search with the proposed guard at the top of its body:
-    `if (!std::isfinite(step) || step == 0) { converged = true; break; }` — `none` = gave up
-    (variables and residual unchanged). -/
-def lineSearchFixed (S : Scalar V) (P : Problem V) (r slope : V) (ds vars ev : Assign V) :
-    Nat → Nat → V → Option (LS V)
-  | 0, n, step => some (.outOfFuel step n)
-  | fuel + 1, n, step =>
-    if !S.isFinite step || S.isZero step then none else
-    let ev' := load ev (stepVars S vars ds step)
-    let r_ := P.value ev'
-    if exitTest S r slope step r_ then
-      some (.accepted { converged := S.lt (S.abs (S.sub r r_)) S.eps, r := r_,
-                        vars := stepVars S vars ds step, ev := ev', step := step, halvings := n })
-    else lineSearchFixed S P r slope ds vars ev fuel (n + 1) (S.half step)
-
-/-- **fixed_inner_terminates.** With the guard, the line search ends for EVERY step, evaluator
-    and gradient (no finiteness or consistency hypothesis): within `bound step` halvings for a
-    finite step, at once otherwise; and a step it accepts is finite and non-zero. Needs only
-    `half_finite` and `halves_to_zero` of the laws. -/
-theorem fixed_inner_terminates (S : Scalar V) (bound : V → Nat) (L : Laws S bound) (P : Problem V)
-    (r slope : V) (ds vars ev : Assign V) (step : V) :
-    ∃ fuel, fuel ≤ bound step + 1 ∧
-      (lineSearchFixed S P r slope ds vars ev fuel 0 step = none ∨
-       ∃ a, lineSearchFixed S P r slope ds vars ev fuel 0 step = some (.accepted a) ∧
-         S.isFinite a.step = true ∧ S.isZero a.step = false) := by
-  have aux : ∀ (k n : Nat) (s : V), S.isFinite s = true → S.isZero (iter S.half k s) = true →
-      (lineSearchFixed S P r slope ds vars ev (k + 1) n s = none ∨
-       ∃ a, lineSearchFixed S P r slope ds vars ev (k + 1) n s = some (.accepted a) ∧
-         S.isFinite a.step = true ∧ S.isZero a.step = false) := by
-    intro k
-    induction k with
-    | zero =>
-      intro n s _ hz
-      left
-      simp only [iter] at hz
-      simp [lineSearchFixed, hz]
-    | succ k ih =>
-      intro n s hf hz
-      simp only [iter] at hz
-      cases hzero : S.isZero s with
-      | true => left; simp [lineSearchFixed, hzero]
-      | false =>
-        cases hexit : exitTest S r slope s (P.value (load ev (stepVars S vars ds s))) with
-        | true =>
-          right
-          refine ⟨{ converged := S.lt (S.abs (S.sub r (P.value (load ev (stepVars S vars ds s))))) S.eps,
-                    r := P.value (load ev (stepVars S vars ds s)), vars := stepVars S vars ds s,
-                    ev := load ev (stepVars S vars ds s), step := s, halvings := n }, ?_, hf, hzero⟩
-          simp [lineSearchFixed, hf, hzero, hexit]
-        | false =>
-          have := ih (n + 1) (S.half s) (L.half_finite s hf) hz
-          simpa [lineSearchFixed, hf, hzero, hexit] using this
-  cases hf : S.isFinite step with
-  | false => exact ⟨1, by omega, Or.inl (by simp [lineSearchFixed, hf])⟩
-  | true => exact ⟨bound step + 1, Nat.le_refl _, aux (bound step) 0 step hf (L.halves_to_zero step hf)⟩
-
--- the repaired search gives up on the witness of `findRoot_not_total` instead of looping
-example : lineSearchFixed FVal.scalar recipP FVal.pinf FVal.pinf [(0, FVal.ninf)] [(0, FVal.fin 0)]
-    [(0, FVal.fin 0)] 1 0 FVal.nan = none := by decide
+  exact old_inner_diverges FVal.scalar infGradP _ _ _ _ _ (FVal.fin 0) (by decide) (by decide)
 
 /-! ### the hypotheses are satisfiable -/
 
@@ -375,25 +343,30 @@ def quadRun : Outcome FVal :=
   findRoot FVal.scalar quadP 60 10 [(0, FVal.fin 0), (2, FVal.fin 0)]
     [(0, FVal.ofInt 3), (1, FVal.ofInt 7), (2, FVal.ofInt 5)] [2] 3
 
--- the run returns (hypothesis `h` of residual_is_value / mask_untouched / outer_bounded) …
+-- the run returns (hypothesis `h` of residual_is_value / mask_untouched / outer_bounded / absent_untouched) …
 example : (quadRun.st?).isSome = true := by decide
--- … after 2 = gas - 1 iterations (outer_bounded is tight) …
-example : ((quadRun.st?).map (·.iters)) = some 2 := by decide
--- … every accepted step was finite (hypothesis `hfin` of absent_untouched_partial) and variable 1
--- (no gradient entry: hypothesis `hgrad`) kept its value 7, masked variable 2 is not returned
-example : ((quadRun.st?).map fun st => st.log.all fun e => FVal.isFinite e.step) = some true := by decide
+-- … after 2 = gas - 1 iterations (outer_bounded is tight), without a give-up …
+example : ((quadRun.st?).map fun st => (st.iters, st.gaveUp)) = some (2, false) := by decide
+-- … variable 1 (no gradient entry: hypothesis `hgrad`) kept its value 7, masked variable 2 is not returned
 example : ∀ ev, (quadP.grad ev).lookup 1 = none ∨ (quadP.grad ev).lookup 1 = some FVal.scalar.zero :=
   fun _ => Or.inl rfl
 example : ((quadRun.st?).map fun st => st.vars.lookup 1) = some (some (FVal.ofInt 7)) := by decide
 example : ((quadRun.st?).map fun st => keys st.vars) = some [0, 1] := by decide
--- the scalar laws have a model
+-- the scalar laws have a model with NaN and ±∞ …
 example : Laws FVal.scalar FVal.bound := FVal.laws
--- hypotheses of inner_terminates_partial at the first iteration of that run: r = 5, slope = 36
-example : FVal.isFinite (FVal.div (FVal.ofInt 5) (FVal.ofInt 36)) = true := by decide
-example : (lineSearch FVal.scalar quadP (FVal.ofInt 5) (FVal.ofInt 36) [(0, FVal.ofInt 6), (1, FVal.fin 0)]
-    [(0, FVal.ofInt 3), (1, FVal.ofInt 7)] [(0, FVal.ofInt 3), (2, FVal.ofInt 5)] 60 0
-    (FVal.div (FVal.ofInt 5) (FVal.ofInt 36))) matches .accepted _ := by decide
--- hypotheses of inner_diverges: NaN is a fixed point of halving and fails the exit test for 1/v at 0
+-- … and the uniform halving bound of findRoot_terminates (`hin`) is consistent with the laws (it
+-- holds for IEEE single with 278; FVal has unbounded magnitudes, so the example is the one-point scalar)
+def unitScalar : Scalar Unit where
+  zero := (); eps := (); abs := id; sub := fun _ _ => (); div := fun _ _ => (); half := id
+  sqAdd := fun _ _ => (); subMul := fun _ _ _ => (); lt := fun _ _ => true; ge := fun _ _ => false
+  geHalf := fun _ _ => false; isFinite := fun _ => true; isZero := fun _ => true
+example : Laws unitScalar (fun _ => 0) :=
+  ⟨fun _ _ _ => rfl, fun _ _ _ _ _ => rfl, fun _ _ => rfl, fun _ _ => rfl, fun _ _ => rfl, fun _ _ _ => rfl⟩
+example : ∀ s : Unit, (fun _ => 0) s < 1 := fun _ => Nat.zero_lt_one
+-- hypothesis of inner_terminates for the first step of quadRun (r = 5, slope = 36): 38 trials suffice
+example : (if FVal.isFinite (FVal.div (FVal.ofInt 5) (FVal.ofInt 36))
+    then FVal.bound (FVal.div (FVal.ofInt 5) (FVal.ofInt 36)) else 0) + 1 ≤ 60 := by decide
+-- hypotheses of old_inner_diverges: NaN is a fixed point of halving and fails the exit test for 1/v at 0
 example : FVal.scalar.half FVal.nan = FVal.nan := rfl
 example : exitTest FVal.scalar FVal.pinf FVal.pinf FVal.nan
     (recipP.value (load [(0, FVal.fin 0)] (stepVars FVal.scalar [(0, FVal.fin 0)] [(0, FVal.ninf)] FVal.nan))) = false := by
